@@ -33,13 +33,16 @@ RULE = (
     "case = (connection kind: UDPTunnel auto_reconnect on/off | UDPDeviceManagementConnection, in-order prefix length, list of ops (gap, kind, arg, delivery delay)); "
     "kinds: e expected, r expected-1, o expected+k (k in 1..254), a absolute counter, d counter of the previous datagram, b burst of n in-order frames, x server DisconnectRequest + new handshake; "
     "delivery delays 5 ms..1 s reorder datagrams, gaps 0..2.5 s straddle the 2 s out-of-order timer; every symbol sequence over {e,r,o+1,o+128,d,x,2.1 s pause} up to length 4 (quick) / 6 (thorough) "
-    "is enumerated from expected=0 and up to length 2 / 4 from expected=254; non-trivial = the delivered history contains a repeated or out-of-order datagram, a second handshake or more than 256 expected frames; distinct by case"
+    "is enumerated from expected=0 and up to length 2 / 4 from expected=254; UDP tunnel: 0..3 datagrams (counters 0,0 / 0,1 / 0,1,2 / 0,0,1 / 1 / 255 / random) handed over in the SAME loop iteration as the ConnectResponse "
+    "of the initial connect and of every reconnect handshake, followed by every word up to length 2 / 3 and by generated histories; non-trivial = the delivered history contains a repeated or out-of-order datagram, a second handshake or more than 256 expected frames; distinct by case"
 )
 LEVEL_TEXT = "Generated and bounded-exhaustive request histories are replayed against the real UDP tunnel and UDP device-management handlers in virtual time; deliveries and acknowledgements are compared datagram by datagram with a mod-256 reference model that is reset at every Connect handshake on the wire."
 LEVEL_NOTE = "Only own-channel datagrams are sent, and only while the simulated server holds an established channel; TCP connections do not evaluate counters and are out of scope; KNX/IP codec used for the wire log is trusted here (C20/C21)."
 ASSUMPTIONS = [
     "single-threaded asyncio on a virtual clock; the gateway sends data requests only on its current channel and only between a delivered ConnectResponse and the next Disconnect (requests already in flight are still judged when delivered)",
     "every injected datagram carries the client's own channel id (the property does not speak about foreign channels: the tunnel ignores the channel id, DeviceManagement drops foreign channels)",
+    "datagrams right behind the ConnectResponse (same loop iteration, before connect() resumes) are driven for the UDP tunnel only: UDPDeviceManagementConnection registers its receiver when connect() resumes, "
+    "so such a DeviceConfigurationRequest is dropped like a lost datagram (no ack, not passed up; the server's repetition is then accepted) - observed, treated as a loss, not judged",
     "TCP tunnels / TCP device-management connections do not evaluate sequence counters (Core 03.08.02 §8.4.3.4.1) and are not driven",
     "wire log parsed with xknx.knxip (codec judged separately by C20/C21)",
 ]
@@ -94,11 +97,32 @@ def execute(case):
                     super()._cemi_received(raw_cemi)
 
             client = Recording(gateway_ip=GW_ADDR[0], gateway_port=GW_ADDR[1], local_ip="10.0.0.2", indication_callback=lambda cemi: info["ind"].append(bytes(cemi.data.data)))
-        await client.connect()
         belief = 0
-        epoch_seen = gw.epoch
         last_seq = 0
         n = 0
+        beliefs: dict[int, int] = {}
+
+        def behind(g):
+            """Datagrams handed to the client in the same loop iteration as the ConnectResponse of handshake g.epoch."""
+            nonlocal n, last_seq
+            lists = case.get("behind") or []
+            h = g.epoch - 1
+            seqs = lists[h] if h < len(lists) else []
+            b, items = 0, []
+            for sq in seqs:
+                sq &= 0xFF
+                items.append((payload(conn, n), sq, {"inj": n}))
+                n += 1
+                last_seq = sq
+                if sq == b:
+                    b = (b + 1) & 0xFF
+            beliefs[g.epoch] = b
+            return items
+
+        gw.behind_handshake = behind
+        await client.connect()
+        epoch_seen = gw.epoch
+        belief = beliefs.get(gw.epoch, 0)
 
         def established():
             return gw.channel is not None and gw.epoch == conn_reqs[0]
@@ -121,7 +145,7 @@ def execute(case):
                         pass
             if gw.epoch != epoch_seen:
                 epoch_seen = gw.epoch
-                belief = 0
+                belief = beliefs.get(gw.epoch, 0)
             return established()
 
         def inject(seq, delay):
@@ -322,6 +346,26 @@ def _enum_shard(ctx, length: int, first: str, prefix: int) -> None:
     ctx.bulk(n, nt, f"enum-L{length}-from-{prefix}")
 
 
+BEHIND = [[0], [0, 0], [0, 1], [0, 1, 2], [0, 0, 1], [1], [255]]
+
+
+def _behind_shard(ctx, bi: int, maxlen: int) -> None:
+    """Datagrams handed over in the same loop iteration as the ConnectResponse (initial connect and every
+    reconnect handshake), followed by every short symbol word. UDP tunnel only (see ASSUMPTIONS)."""
+    n = nt = 0
+    for length in range(1, maxlen + 1):
+        for w in itertools.product(SYMS, repeat=length):
+            for ar in (True, False):
+                case = {"conn": "tunnel", "auto_reconnect": ar, "prefix": 0, "behind": [BEHIND[bi]] * 4, "ops": [SYMS[c] for c in w], "tail": 2.5}
+                facts = check_case(ctx, case)
+                n += 1
+                if facts is not None:
+                    nt += 1  # a datagram behind the handshake is the interesting part by itself
+    ctx.bulk(n, nt, "enum-behind-handshake")
+    if bi == 0:
+        ctx.sample({"behind_handshake": BEHIND[bi], "then": "every word up to length %d" % maxlen})
+
+
 _gap = st.sampled_from(GAPS)
 _delay = st.sampled_from(DELAYS)
 _op = st.one_of(
@@ -341,7 +385,10 @@ def cases(draw):
     conn, ar = draw(st.sampled_from(VARIANTS))
     prefix = draw(st.sampled_from([0, 0, 0, 0, 0, 0, 3, 3, 250, 254, 255, 256, 300, 511]))
     ops = draw(st.lists(_op, min_size=1, max_size=24))
-    return {"conn": conn, "auto_reconnect": ar, "prefix": prefix, "ops": [list(o) for o in ops], "tail": draw(st.sampled_from([0.5, 2.5]))}
+    behind = []
+    if conn == "tunnel" and draw(st.booleans()):
+        behind = draw(st.lists(st.lists(st.sampled_from([0, 0, 0, 1, 1, 2, 255]) | st.integers(0, 255), max_size=3), min_size=1, max_size=3))
+    return {"conn": conn, "auto_reconnect": ar, "prefix": prefix, "behind": behind, "ops": [list(o) for o in ops], "tail": draw(st.sampled_from([0.5, 2.5]))}
 
 
 def _hyp_oracle(ctx, case) -> None:
@@ -358,9 +405,11 @@ def _hyp_oracle(ctx, case) -> None:
         cls.append("has-out-of-order")
     if facts["repeated"]:
         cls.append("has-repeated")
+    if any(case.get("behind") or []):
+        cls.append("frames-behind-handshake")
     ctx.case(
         repr(sorted(case.items())),
-        nontrivial=_nontrivial(facts),
+        nontrivial=_nontrivial(facts) or any(case.get("behind") or []),
         cls=cls,
         sample={"conn": case["conn"], "prefix": case["prefix"], "ops": "".join(o[1] for o in case["ops"]), "delivered": {k: facts[k] for k in ("expected", "repeated", "out_of_order", "handshakes")}} if len(case["ops"]) > 6 and len(ctx.samples) < 2 else None,
     )
@@ -405,7 +454,7 @@ def selftest(ctx) -> None:
 
 def _job(ctx, what: str, *args) -> None:
     """One fork pool for everything (forking is the expensive part on a busy box)."""
-    {"enum": _enum_shard, "wrap": _wrap_shard, "hyp": _hyp_shard}[what](ctx, *args)
+    {"enum": _enum_shard, "wrap": _wrap_shard, "hyp": _hyp_shard, "behind": _behind_shard}[what](ctx, *args)
 
 
 def run(ctx) -> None:
@@ -413,6 +462,7 @@ def run(ctx) -> None:
     L254 = ctx.n(2, 4)
     jobs: list[tuple] = [("wrap", c, ar, v) for c, ar in VARIANTS for v in range(4)]
     jobs += [("hyp", ctx.n(100, 2500))] * 16
+    jobs += [("behind", bi, ctx.n(2, 3)) for bi in range(len(BEHIND))]
     for length in range(L0, 0, -1):
         for first in SYMS:
             jobs.append(("enum", length, first, 0))
